@@ -16,6 +16,8 @@ let handle fields =
                       (bytes_of_hex g2) (bytes_of_hex m2) (bytes_of_hex f2) (bytes_of_hex mu2)
                       (bytes_of_hex sf2) (bytes_of_hex c2) (z_of_str v2))
   | ["refused"; t] -> string_of_bool (holds_C04_refused (bytes_of_hex t))
+  | ["pixels"; pd; label; out; back] ->
+    string_of_bool (holds_C04_pixels (bytes_of_hex pd) (rows_of_str label) (rows_of_str out) (bytes_of_hex back))
   | ["flag"; b] -> string_of_bool (b = "1")     (* a check made by the harness itself: destination left untouched *)
   | ["romtext"; rows] ->
     let rom = rom_of_rows (rows_of_str rows) in
